@@ -237,9 +237,9 @@ def run(ctx):
     if on("race"):
         # (5) the same programs free-running on one goroutine per document under the race detector
         race = gen(ctx, "gen_race.cfg", "SpecGen", "Emit", 2, CORE if q else FULL, 1, 2, "race")
-        execute(ctx, unordered(ctx, race, "race"), "race", "race", rounds=16 if q else 40)
+        execute(ctx, unordered(ctx, race, "race"), "race", "race", rounds=16 if q else 20)
         if not q:
-            race2 = gen(ctx, "gen_race2.cfg", "SpecGen", "Emit", 3, FULL, 3, 7, "race2", mode="sim", num=8, depth=8, limit=200)
+            race2 = gen(ctx, "gen_race2.cfg", "SpecGen", "Emit", 3, FULL, 3, 7, "race2", mode="sim", num=8, depth=8, limit=100)
             execute(ctx, unordered(ctx, race2, "race2"), "race2", "race", rounds=24)
     if not ctx.extra_cov.get("library_has_registry_hooks"):
         ctx.assumptions.append("the library under test has no notes./numbering. hook points: sub-step schedules were executed "
@@ -255,7 +255,7 @@ def run(ctx):
         gate="one goroutine per document, every 1+1 schedule%s" % ("" if q else " over alphabet_full and every 2+1 schedule over alphabet_core"),
         sub="every schedule of 2 registry calls (1+1 and 2+0 excluded) at hook-point granularity in which the as-built model predicts a duplicate id"
             + ("" if q else "; random ones of 3 calls"),
-        race="every pair of single calls free-running under -race, %d rounds each" % (24 if q else 40),
+        race="every unordered pair of single calls free-running under -race, %d rounds each" % (16 if q else 20),
         alphabet_core=CORE, alphabet_full=FULL)
     model_diag(ctx)
     return ctx.finish(LEVEL, RULE)
